@@ -37,6 +37,7 @@ VIS_RANK = {"d": 0, "p": 3, "h": 2, "i": 1}          # ELF st_other values
 VIS_DIRECTIVE = {"h": ".hidden", "p": ".protected", "i": ".internal"}
 KNOWN_INTERNAL = "internal-visibility-treated-as-default"
 KNOWN_PROT = "merged-protected-visibility-not-written"
+KNOWN_HREF = "hidden-reference-not-applied-to-later-winner"
 KNOWN_EXCL = "exclude-libs-exported-via-other-route"
 
 
@@ -192,8 +193,11 @@ def normalise(case):
             s.loaded = True
     if case["out"] != "shared":
         # GNU ld refuses an executable whose hidden symbol is referenced by a DSO: not generated.
+        ctl = case["ctl"]
+        vl = resolve_pats(ctl["vs"]["local"], syms) if ctl["vs"] else []
+        vg = resolve_pats(ctl["vs"]["global"], syms) if ctl["vs"] else []
         for s in syms:
-            if s.dep == "ref" and merged_visibility(s) in ("h", "i"):
+            if s.dep == "ref" and (merged_visibility(s) in ("h", "i") or vs_verdict(s.name, vg, vl) in ("local", "ambiguous")):
                 s.dep = "none"
     if not case.get("raw"):
         # Steer out of the known findings' domains (they are reached, and skipped, with raw=True).
@@ -201,10 +205,26 @@ def normalise(case):
             for e in s.defs + s.refs:
                 if e["vis"] == "i":
                     e["vis"] = "h"
+            if in_href_domain(s):
+                for r in s.refs:
+                    r["vis"] = "d"
             w = winner(s)
             if w is not None and merged_visibility(s) == "p" and w["vis"] == "d":
                 w["vis"] = "p"
     return syms
+
+
+def in_href_domain(s):
+    """Known finding: a hidden undefined reference, >=2 non-local definitions none of which is itself
+    hidden/internal, and the winning definition is not the first definition in input order: wild
+    applies the reference's visibility to the first definition only and exports the symbol."""
+    nl = [d for d in s.defs if d["bind"] != "l"]
+    if not s.loaded or len(nl) < 2 or not any(r["vis"] == "h" for r in s.refs):
+        return False
+    if merge_vis([d["vis"] for d in nl]) in ("h", "i"):
+        return False
+    first = min(nl, key=lambda d: d["tu"])
+    return winner(s) is not first
 
 
 def effective_exclude(case, syms):
@@ -542,7 +562,9 @@ def symtab_problems(elf, syms, case):
             else:
                 h = hits[0]
                 b, v = BIND.get(h.bind), VISN[h.vis]
-                if vis == "i" and b != "l":
+                if in_href_domain(sym) and b != "l" and v != "h":
+                    bad["hidden-ref"] = f"{sym.name}: a reference is hidden, entry is bind={b} vis={v}"
+                elif vis == "i" and b != "l":
                     bad["internal"] = f"{sym.name}: most constraining visibility is internal, entry is bind={b} vis={v}"
                 elif b == w["bind"] and v == "d" and vis == "p" and w["vis"] == "d":
                     bad["merged-protected"] = f"{sym.name}: most constraining visibility is protected, entry says default"
@@ -628,6 +650,8 @@ class C31(Check):
             return KNOWN_PROT
         if self._excl_domain(case, syms):
             return KNOWN_EXCL
+        if any(in_href_domain(s) for s in syms):
+            return KNOWN_HREF
         return None
 
     @staticmethod
@@ -681,7 +705,7 @@ class C31(Check):
             if any(r.split(":")[0] == base for r in pl):
                 classes.append("symtab-rule-flags-ld:" + base)
                 continue
-            sig = {"merged-protected": KNOWN_PROT, "internal": KNOWN_INTERNAL}.get(rule, "symtab:" + rule)
+            sig = {"merged-protected": KNOWN_PROT, "internal": KNOWN_INTERNAL, "hidden-ref": KNOWN_HREF}.get(rule, "symtab:" + rule)
             raise Violation(sig, pw[rule], {"args": args})
         if has_w and not has_l:
             classes.append("symtab-only-wild")
@@ -703,6 +727,8 @@ class C31(Check):
             sym = next(s for s in syms if s.name == n)
             if merged_visibility(sym) == "i":
                 sig = KNOWN_INTERNAL
+            elif extra and in_href_domain(sym):
+                sig = KNOWN_HREF
             elif extra and why.get(n) == "exclude-libs" and excl_route(case, syms, sym):
                 sig = KNOWN_EXCL
             else:
